@@ -238,12 +238,15 @@ CHECKS["C09"] = {"run": _c09_run, "replay": _case_replay}
 def _c17_run(prop, tier):
     t0 = time.time()
     fam = fam_codec.wire_family(tier)
+    for dv in fam.get("divergences", []):
+        print("DIVERGENCE (spec/Wire.tla parser differs from the implementation; not a property violation): %s" % json.dumps(dv["line"])[:300])
     return _codec_finish(prop, tier, fam, t0,
         "case = one generated control-plane message (cluster metadata with 0-2 local nodes x 0-2 tagged slot ranges x multi-range lists, 0-2 peers, "
         "config variants; replication metadata; migration task descriptor) sent through the real encoder and the real parser (plain, gzip+base64, SETREPL, "
         "INFOMGR join/split), or one corrupted encoding (every single-token deletion, every truncation, cross-kind token replacements, damaged compressed "
         "payloads); non-trivial iff it has peers/tags or is a corruption case",
         ["value equality is judged by TLC on a canonical JSON projection (nodes sorted by address)",
+         "L2: spec/Wire.tla's parser (Dec) is evaluated by TLC on the tokens of every plain / corrupted-plain SETCLUSTER case and must agree with the real parser (divergences are reported, exit 0)",
          "same-kind token replacements are excluded from the corruption model (they are legitimately different messages)",
          "the proxy->coordinator->broker journey of a descriptor is exercised by the C02/C14 full-stack runs (real INFOMGR -> real commit)"],
         "generated values, not all values")
